@@ -9,10 +9,14 @@ import (
 
 func main() {
 	if len(os.Args) != 3 {
-		fmt.Fprintln(os.Stderr, "usage: instrument <repo> <outdir>")
+		fmt.Fprintln(os.Stderr, "usage: instrument <repo> <outdir>   (DSIM_REPO=<scratch tree> instruments that tree onto <repo>'s paths)")
 		os.Exit(2)
 	}
-	st, err := instr.Run(os.Args[1], os.Args[2])
+	src := os.Args[1]
+	if alt := os.Getenv("DSIM_REPO"); alt != "" {
+		src = alt
+	}
+	st, err := instr.RunAs(src, os.Args[1], os.Args[2])
 	if err != nil {
 		fmt.Fprintln(os.Stderr, "instrument:", err)
 		os.Exit(2)
